@@ -45,6 +45,12 @@ M = [
  ("rope_slice_last_piece_dropped", "src/rope.rs", "        (start_chunk_index..end_chunk_index + 1).try_for_each(|i| {", "        (start_chunk_index..end_chunk_index).try_for_each(|i| {", {"C16": "V"}),
  ("rope_unchecked_off_by_one", "src/rope.rs", "            let chunk = unsafe { chunk.get_unchecked(..end) };", "            let chunk = unsafe { chunk.get_unchecked(..end + 1) };", {"C19": "V"}),
  ("rope_end_check_removed", "src/rope.rs", "      (None, Some(end)) => {\n        if end > self.len() {\n          return Err(Error::Rope(\"end out of bounds\"));\n        }\n      }", "      (None, Some(_end)) => {}", {"C17": "V", "C19": "V"}),
+ # ---- breaking: ConcatSource views (unit concat_views) ----
+ ("concat_rope_two_children_delegated", "src/concat_source.rs", "    if children.len() == 1 {\n      children[0].rope()", "    if children.len() == 1 || children.len() == 2 {\n      children[0].rope()", {"C07": "V"}),
+ ("concat_size_counts_text", "src/concat_source.rs", "    self.children().iter().map(|child| child.size()).sum()", "    self.children().iter().map(|child| child.source().len()).sum()", {"C07": "V"}),
+ ("concat_buffer_from_source", "src/concat_source.rs", "        .map(|child| child.buffer())\n", "        .map(|child| Cow::Owned(child.source().as_bytes().to_vec()))\n", {"C07": "V"}),
+ ("concat_rope_reversed", "src/concat_source.rs", "      for child in children {\n        let child_rope = child.rope();", "      for child in children.iter().rev() {\n        let child_rope = child.rope();", {"C07": "V"}),
+ ("benign_concat_len_check", "src/concat_source.rs", "    if children.len() == 1 {\n      children[0].buffer()", "    if 1 == children.len() {\n      children[0].buffer()", {"C07": "P2"}),
  # ---- breaking: Rope observers (unit rope_obs) ----
  ("ropeobs_ends_with_last_piece", "src/rope.rs", "          if !chunk.is_empty() {\n            return chunk.ends_with(value);\n          }", "          return chunk.ends_with(value);", {"C16": "V"}),
  ("ropeobs_starts_with_equality", "src/rope.rs", "          // every piece of `value` matched: `value` is a prefix, whatever remains\n          true", "          remaining.is_empty()", {"C16": "V"}),
